@@ -64,7 +64,9 @@ def execCmd (store entry exts esc globals vars data fuel : Sexp) : Except String
     | .err e out log =>
       pure (.list [.atom "err", Sexp.ofBool e.located, .bytes e.loc.path, Sexp.ofNat e.loc.line, renderOut out, renderLog log,
                    .atom ("what:" ++ ((e.what.replace " " "-").replace "(" "").replace ")" "")])
-    | .crash _ out => pure (.list [.atom "crash", renderOut out])
+    | .crash msg out =>
+      -- a panic raised by a called Go function with a non-error value (re-raised by Execute by design)
+      pure (.list [.atom (if msg.startsWith "strings: " then "callee-panic" else "crash"), renderOut out])
     | .fuel => pure (.list [.atom "unsupported", .atom "fuel"])
     | .unsupported w => pure (.list [.atom "unsupported", .atom (w.replace " " "-")])
 
